@@ -145,6 +145,10 @@ func doGetCPUPlans(originCPUMap, availableCPUMap types.CPUMap, availableMemory i
 	cpuPlans := h.getCPUPlans(cpuRequest)
 	if memoryRequest > 0 {
 		memoryCapacity := int(availableMemory / memoryRequest)
+		if memoryCapacity < 0 {
+			// the node uses more memory than it has (e.g. after its capacity was lowered)
+			memoryCapacity = 0
+		}
 		if memoryCapacity < len(cpuPlans) {
 			cpuPlans = cpuPlans[:memoryCapacity]
 		}
